@@ -67,6 +67,7 @@ type FuncContract struct {
 	StructuralOnly  bool
 	Derived         []string
 	Approx          []string
+	LocModel        bool
 	Fresh           []string
 	UseLemmas       []string
 	DynTypes        map[string]string // result name -> concrete struct type name
@@ -404,6 +405,14 @@ func parseFuncDirective(fc *FuncContract, word, rest, file string, line int) {
 	case "fresh":
 		// fresh r: the named result is a newly allocated object
 		fc.Fresh = append(fc.Fresh, splitNames(rest)...)
+	case "ndmodel":
+		fc.LocModel = strings.TrimSpace(rest) == "locations"
+	case "atsend":
+		// atsend [label] expr: holds when the goroutine body signals completion (channel send)
+		fc.Clauses = append(fc.Clauses, mk("atsend", rest, -1))
+	case "writes":
+		// writes [label] expr over wroot, widx: cells the function may write (location model)
+		fc.Clauses = append(fc.Clauses, mk("writes", rest, -1))
 	case "approx":
 		// approx NAME: carried only as a starting guess of an iterative solver
 		fc.Approx = append(fc.Approx, splitNames(rest)...)
